@@ -117,7 +117,7 @@ def access_checks(system, ids, listed):
             raise
         except Exception:
             ok = False
-    for i in (n, -n - 1, n + 3):
+    for i in (n, -n - 1, n + 3, -n - 2, -2 * n, -2 * n - 1, -n - 3, 2 * n):
         try:
             system[i]
             ok = False
